@@ -33,24 +33,26 @@ Proof. intros val M ML fl J kw. exact (jcond_kw_defined val M ML fl J kw). Qed.
 Print Assumptions C01_step_defined.
 
 (* any list of conditioning calls (any order, any grouping, continuing on a reduced single
-   Distribution; a Posterior is only re-conditioned by the empty call): induction over the steps *)
+   Distribution, and -- pnamed = true, i.e. with fixes/C01_posterior_name.diff -- on a Posterior
+   conditioned on its own parameter by keyword; in the code as it stands (pnamed = false) that last
+   step is refused, see C01_posterior_keyword_refuted): induction over the steps *)
 Theorem C01_sequence : forall (val : Type) (M : Mon), MonLaws M ->
-  forall (steps : list (list (var * val))) (o o' : obj val M) (rest : list (var * val)),
-  wf_obj val M o -> run_steps_kw o steps = Some o' ->
+  forall (pnamed : bool) (steps : list (list (var * val))) (o o' : obj val M) (rest : list (var * val)),
+  wf_obj val M o -> run_steps_kw pnamed o steps = Some o' ->
   NoDup (dom (concat steps ++ rest)) -> incl (dom (concat steps)) (obj_params o) ->
   obj_logd_kw o' rest = obj_logd_kw o (concat steps ++ rest).
-Proof. intros val M ML steps o o' rest W H ND I. exact (proj1 (sequence_steps val M ML steps o o' rest W H ND I)). Qed.
+Proof. intros val M ML pnamed steps o o' rest W H ND I. exact (proj1 (sequence_steps val M ML pnamed steps o o' rest W H ND I)). Qed.
 Print Assumptions C01_sequence.
 
 (* two histories fixing the same variables to the same values, in any order and grouping, give
    objects with the same log-density *)
 Theorem C01_order_irrelevant : forall (val : Type) (M : Mon), MonLaws M ->
-  forall (o o1 o2 : obj val M) (s1 s2 : list (list (var * val))) (rest : list (var * val)),
-  wf_obj val M o -> run_steps_kw o s1 = Some o1 -> run_steps_kw o s2 = Some o2 ->
+  forall (pnamed : bool) (o o1 o2 : obj val M) (s1 s2 : list (list (var * val))) (rest : list (var * val)),
+  wf_obj val M o -> run_steps_kw pnamed o s1 = Some o1 -> run_steps_kw pnamed o s2 = Some o2 ->
   Permutation (concat s1) (concat s2) ->
   NoDup (dom (concat s1 ++ rest)) -> incl (dom (concat s1)) (obj_params o) ->
   obj_logd_kw o1 rest = obj_logd_kw o2 rest.
-Proof. intros val M ML o o1 o2 s1 s2 rest. exact (order_irrelevant val M ML o s1 s2 o1 o2 rest). Qed.
+Proof. intros val M ML pnamed o o1 o2 s1 s2 rest. exact (order_irrelevant val M ML pnamed o s1 s2 o1 o2 rest). Qed.
 Print Assumptions C01_order_irrelevant.
 
 (* branching histories: any number of children derived from the SAME parent object, in any order,
@@ -60,14 +62,14 @@ Print Assumptions C01_order_irrelevant.
    e.g. _add_constants_to_density writing onto a factor still referenced by the parent -- is what the
    check_history correspondence cases test: every earlier object is re-evaluated after each step.) *)
 Theorem C01_branching : forall (val : Type) (M : Mon), MonLaws M ->
-  forall (o : obj val M) (kws : list (list (var * val))),
+  forall (pnamed : bool) (o : obj val M) (kws : list (list (var * val))),
   wf_obj val M o ->
-  forall kw o' rest, In kw kws -> obj_cond_kw o kw = Some o' ->
+  forall kw o' rest, In kw kws -> obj_cond_kw pnamed o kw = Some o' ->
   NoDup (dom kw) -> incl (dom kw) (obj_params o) -> (forall v, In v (dom kw) -> ~ In v (dom rest)) ->
   obj_logd_kw o' rest = obj_logd_kw o (kw ++ rest).
 Proof.
-  intros val M ML o kws W kw o' rest _ H ND I Hd.
-  exact (proj1 (obj_step val M ML o kw o' rest W H ND I Hd)).
+  intros val M ML pnamed o kws W kw o' rest _ H ND I Hd.
+  exact (proj1 (obj_step val M ML pnamed o kw o' rest W H ND I Hd)).
 Qed.
 Print Assumptions C01_branching.
 
@@ -152,29 +154,40 @@ Print Assumptions C01_stacked.
    Likelihood, Distribution, EvaluatedDensity).  Holds for the repaired code (strict = true)
    without guard, and for the code as it stands outside the class `main_positional_with_keywords`. *)
 Theorem C01_refusal : forall (val : Type) (M : Mon), MonLaws M ->
-  forall (strict : bool) (o : obj val M) (args : list val) (kw : list (var * val)) v,
+  forall (vsplit : list nat -> val -> list val) (strict : bool) (o : obj val M) (args : list val) (kw : list (var * val)) v,
   wf_obj val M o -> NoDup (dom kw) ->
   strict = true \/ ~ main_positional_with_keywords val M o args kw ->
-  obj_logd strict o args kw = Some v ->
-  length args <= length (obj_params o) /\
-  (forall k, In k (dom kw) -> In k (obj_params o) /\ ~ In k (firstn (length args) (obj_params o))) /\
-  (forall p, In p (obj_params o) -> In p (dom kw) \/ In p (firstn (length args) (obj_params o))).
+  obj_logd vsplit strict o args kw = Some v ->
+  match o with
+  | OJ FStacked J =>      (* the stacked object: exactly one positional vector, no keywords *)
+      exists x, args = [x] /\ kw = [] /\ jlogd_kw J (combine (jparams J) (vsplit (jdims J) x)) = Some v
+  | _ =>
+      length args <= length (obj_params o) /\
+      (forall k, In k (dom kw) -> In k (obj_params o) /\ ~ In k (firstn (length args) (obj_params o))) /\
+      (forall p, In p (obj_params o) -> In p (dom kw) \/ In p (firstn (length args) (obj_params o)))
+  end.
 Proof.
-  intros val M ML strict o args kw v W ND G H.
-  exact (call_complete_cases val _ args kw (obj_logd_Some val M strict o args kw v W ND G H)).
+  intros val M ML vsplit strict o args kw v W ND G H.
+  assert (Q : (forall J, o <> OJ FStacked J) ->
+              length args <= length (obj_params o) /\
+              (forall k, In k (dom kw) -> In k (obj_params o) /\ ~ In k (firstn (length args) (obj_params o))) /\
+              (forall p, In p (obj_params o) -> In p (dom kw) \/ In p (firstn (length args) (obj_params o)))).
+  { intros NS. exact (call_complete_cases val _ args kw (obj_logd_Some val M vsplit strict o args kw v W ND NS G H)). }
+  destruct o as [[| |] J|ld x pr c|f]; try (apply Q; intros J'; discriminate).
+  exact (stacked_call_Some val M vsplit J args kw v H).
 Qed.
 Print Assumptions C01_refusal.
 
-(* FINDING (Distribution.logd|main-positional:other-keywords-ignored): in the code as it stands
+(* REPAIRED DEFECT (Distribution.logd|main-positional:other-keywords-ignored, fix 5b3a052): in the code before the repair
    (strict = false) the guard of C01_refusal is needed: x | z evaluated as logd(zval, xval, foo=..)
    (unknown keyword 7) and logd(zval, xval, x=..) (own name 0 given twice) return numbers *)
 Definition C01_w_dist : dist Z ZM := @mkDist Z ZM 0 1 [1] [] 0%Z (fun vs => fold_right Z.add 0%Z vs).
 Theorem C01_refusal_refuted :
   exists (o : obj Z ZM) (args : list Z) (kw1 kw2 : list (var * Z)) v1 v2,
     wf_obj Z ZM o /\ main_positional_with_keywords Z ZM o args kw1 /\
-    obj_logd false o args kw1 = Some v1 /\ ~ In 7 (obj_params o) /\ In 7 (dom kw1) /\
-    obj_logd false o args kw2 = Some v2 /\ In 0 (dom kw2) /\ In 0 (firstn (length args) (obj_params o)) /\
-    obj_logd true o args kw1 = None /\ obj_logd true o args kw2 = None.
+    obj_logd (fun _ x => [x]) false o args kw1 = Some v1 /\ ~ In 7 (obj_params o) /\ In 7 (dom kw1) /\
+    obj_logd (fun _ x => [x]) false o args kw2 = Some v2 /\ In 0 (dom kw2) /\ In 0 (firstn (length args) (obj_params o)) /\
+    obj_logd (fun _ x => [x]) true o args kw1 = None /\ obj_logd (fun _ x => [x]) true o args kw2 = None.
 Proof.
   exists (OD (D C01_w_dist)), [5; 6]%Z, [(7, 1%Z)], [(0, 9%Z)], 11%Z, 11%Z.
   split; [split; [split; [repeat constructor; cbn; tauto | cbn; intuition congruence] | intros _; reflexivity]|].
@@ -244,7 +257,7 @@ Example C01_example :
   jlogd_kw C01_ex_J [(0%nat, 1%Z); (1%nat, 2%Z); (2%nat, 3%Z); (3%nat, 4%Z)] = Some 33%Z /\
   (exists o1 o2, jcond_kw FJoint C01_ex_J [(3, 4%Z)] = Some o1 /\ obj_kind o1 = 0 /\
                  obj_logd_kw o1 [(0%nat, 1%Z); (1%nat, 2%Z); (2%nat, 3%Z)] = Some 33%Z /\
-                 obj_cond_kw o1 [(1, 2%Z); (0, 1%Z)] = Some o2 /\ obj_kind o2 = 2 /\
+                 obj_cond_kw false o1 [(1, 2%Z); (0, 1%Z)] = Some o2 /\ obj_kind o2 = 2 /\
                  obj_logd_kw o2 [(2, 3%Z)] = Some 33%Z /\ obj_logd_kw o2 [] = None) /\
   jlogd_kw C01_ex_J [(0%nat, 1%Z); (1%nat, 2%Z); (2%nat, 3%Z)] = None.
 Proof.
@@ -256,3 +269,95 @@ Proof.
   - split; [exact ZM_laws|]. split; [reflexivity|]. split; [|reflexivity].
     eexists. eexists. repeat split; reflexivity.
 Qed.
+
+(* conditioning a Posterior on its own parameter by keyword.  With the Posterior carrying its
+   prior's name (pnamed = true, fixes/C01_posterior_name.diff) the call returns the
+   EvaluatedDensity of exactly the posterior's log-density at that value, so "data first, then the
+   parameter" is one more step of C01_sequence and equals the joint at the complete assignment *)
+Theorem C01_posterior_keyword : forall (val : Type) (M : Mon), MonLaws M ->
+  forall ld data pr (c : car M) (x : val),
+  wf_obj val M (OP ld data pr c) ->
+  obj_cond_kw true (OP ld data pr c) [(dname pr, x)] =
+    match obj_logd_kw (OP ld data pr c) [(dname pr, x)] with
+    | Some v => Some (OD (E (dname pr) v))
+    | None => None
+    end.
+Proof.
+  intros val M ML ld data pr c x W. cbn [obj_cond_kw]. unfold post_cond. cbn [andb]. rewrite Nat.eqb_refl.
+  now rewrite (post_positional val M false ld data pr c x W).
+Qed.
+Print Assumptions C01_posterior_keyword.
+
+(* FINDING (Posterior._condition|own-parameter-by-keyword): in the code as it stands (pnamed = false)
+   the property's "in one step or several" fails for the history  data first, then the parameter by
+   keyword: on the docstring graph, J(y,d,l) is a Posterior in x and J(y,d,l)(x=..) is refused,
+   whereas J(y,d,l,x) in one step, and the two steps with the repaired code, give the joint value *)
+Theorem C01_posterior_keyword_refuted :
+  exists (J : list (dens Z ZM)) (kw1 kw2 : list (var * Z)) o1 o2 o3,
+    wf Z ZM J /\ jcond_kw FJoint J kw1 = Some o1 /\ obj_kind o1 = 2 /\ dom kw2 = obj_params o1 /\
+    obj_cond_kw false o1 kw2 = None /\
+    obj_cond_kw true o1 kw2 = Some o2 /\ jcond_kw FJoint J (kw1 ++ kw2) = Some o3 /\
+    obj_logd_kw o2 [] = jlogd_kw J (kw1 ++ kw2) /\ obj_logd_kw o3 [] = jlogd_kw J (kw1 ++ kw2) /\
+    jlogd_kw J (kw1 ++ kw2) = Some 33%Z.
+Proof.
+  exists C01_ex_J, [(3%nat, 4%Z); (0%nat, 1%Z); (1%nat, 2%Z)], [(2%nat, 3%Z)].
+  do 3 eexists. split; [exact (proj1 C01_example)|]. repeat split; reflexivity.
+Qed.
+Print Assumptions C01_posterior_keyword_refuted.
+
+(* the order in which the code adds floating-point numbers, stated without any monoid law (so it
+   holds verbatim for IEEE addition, Model FM): a joint evaluates to ((0 + f1) + f2) + ... over its
+   factors in order; a Posterior to (likelihood + prior) + c with c = ((0 + e1) + e2) + ... over the
+   evaluated factors in order; a reduced Distribution carries its own _constant + that sum *)
+Theorem C01_summation_order : forall (val : Type) (M : Mon),
+  (forall (J : list (dens val M)) (a : list (var * val)), wf val M J ->
+     jlogd_kw J a = if keys_ok a (jparams J)
+                    then fold_left oadd (map (fun f => dens_val f a) J) (Some (mzero M)) else None) /\
+  (forall fl (J : list (dens val M)), wf val M J -> length (filter isD J) = 1 -> length (filter isL J) = 1 ->
+     exists ld x pr, reduce fl J = Some (OP ld x pr (evsum J))) /\
+  (forall fl (J : list (dens val M)), wf val M J -> length (filter isD J) = 1 -> filter isL J = [] ->
+     exists d, In (D d) J /\ reduce fl J = Some (OD (D (add_const d (evsum J))))) /\
+  (forall (J : list (dens val M)),
+     evsum J = fold_left (fun acc f => match f with E _ v => madd M acc v | _ => acc end) J (mzero M)).
+Proof.
+  intros val M. split; [|split; [|split]].
+  - intros J a. exact (jlogd_kw_order val M J a).
+  - intros fl J W HD HL. destruct (reduce_posterior val M fl J W HD HL) as [ld [x [pr [R _]]]]. eauto.
+  - intros fl J. exact (reduce_distribution val M fl J).
+  - reflexivity.
+Qed.
+Print Assumptions C01_summation_order.
+
+(* BayesianProblem: its target is the conditioned joint (set_data = conditioning, refused once the
+   target is no longer a joint); .likelihood / .prior are views of the Posterior target and
+   posterior = likelihood + prior + folded constant at every value *)
+Theorem C01_problem_views : forall (val : Type) (M : Mon) ld data pr (c : car M) (x : val),
+  wf_obj val M (OP ld data pr c) ->
+  obj_view 0 (OP ld data pr c) = Some (OD (L ld data)) /\
+  obj_view 1 (OP ld data pr c) = Some (OD (D pr)) /\
+  obj_logd_kw (OP ld data pr c) [(dname pr, x)] =
+    oadd (oadd (obj_logd_kw (OD (L ld data)) [(dname pr, x)]) (obj_logd_kw (OD (D pr)) [(dname pr, x)])) (Some c) /\
+  (forall fl (J : list (dens val M)) (kw : list (var * val)), bp_set_data (OJ fl J) kw = jcond_kw fl J kw) /\
+  (forall kw : list (var * val), bp_set_data (OP ld data pr c) kw = None).
+Proof.
+  intros val M ld data pr c x W. destruct (problem_views val M ld data pr c x W) as [A [B C]].
+  repeat split; assumption || reflexivity.
+Qed.
+Print Assumptions C01_problem_views.
+
+(* the stacked OBJECT (J._as_stacked(), possibly conditioned further: C01_step holds for every
+   flavour, so conditioning a stacked joint is covered): evaluated at the concatenation of the values
+   it equals the keyword evaluation of the same factors *)
+Theorem C01_stacked_object : forall (A : Type) (M : Mon) (strict : bool) (fl : flavor)
+  (J : list (dens (list A) M)) (vals : list (list A)),
+  wf (list A) M J -> map (@length A) vals = jdims J ->
+  obj_stack (OJ fl J) = Some (OJ FStacked J) /\
+  obj_logd split_at strict (OJ FStacked J) [concat vals] [] = jlogd_kw J (combine (jparams J) vals).
+Proof.
+  intros A M strict fl J vals W H.
+  destruct (stacked_object (list A) M split_at strict fl J (concat vals) vals W) as [S1 S2].
+  - rewrite <- H. apply split_at_concat.
+  - split; [exact S1 | exact S2].
+Qed.
+Print Assumptions C01_stacked_object.
+
